@@ -81,6 +81,9 @@ type Exec struct {
 	denseIntMaps map[string][2]int
 	callN        map[string]int
 	muted        bool
+	cfgSuffix    string
+	splitVals    map[string]int
+	guards       []activeGuard
 	curBind      []Val
 	initSeen     map[int]bool
 	safetySeen   map[int][]*Term
@@ -117,6 +120,7 @@ func (x *Exec) oblige(st *State, kind, label string, goal *Term, note string) {
 	if x.hasCfg {
 		name += fmt.Sprintf("@%s=%d", x.cfgVar, x.cfgVal)
 	}
+	name += x.cfgSuffix
 	hy := make([]*Term, len(x.hyps))
 	copy(hy, x.hyps)
 	parts := x.unknownConjuncts(goal)
@@ -159,6 +163,7 @@ func (x *Exec) cover(st *State, label string) {
 	if x.hasCfg {
 		name += fmt.Sprintf("@%s=%d", x.cfgVar, x.cfgVal)
 	}
+	name += x.cfgSuffix
 	hy := make([]*Term, len(x.hyps)+1)
 	copy(hy, x.hyps)
 	hy[len(x.hyps)] = st.pc
@@ -311,7 +316,12 @@ func (x *Exec) initialRefs(t *Term, depth int) {
 			if !x.initSeen[t.id] {
 				x.initSeen[t.id] = true
 				if !mentionsBound(t) {
-					x.assumeGlobal(And(Le(IntLit(0), t), Lt(t, x.alloc0)))
+					fact := And(Le(IntLit(0), t), Lt(t, x.alloc0))
+					if len(t.args) > 0 && t.args[0].sort == SInt {
+						// only cells of objects that existed at entry hold entry-time references
+						fact = Implies(Lt(t.args[0], x.alloc0), fact)
+					}
+					x.assumeGlobal(fact)
 				}
 			}
 		}
@@ -892,7 +902,7 @@ func (x *Exec) step(st *State, in ssa.Instruction) {
 	case *ssa.Store:
 		p := x.get(st, i.Addr)
 		v := x.get(st, i.Val)
-		x.checkMoved(p)
+		x.guardCheck(st, in, p.Prefix)
 		et := p.Typ.Underlying().(*types.Pointer).Elem()
 		storePlace(st.heap, ptrPlace(p), et, x.convIface(v, et))
 	case *ssa.Lookup:
@@ -902,6 +912,7 @@ func (x *Exec) step(st *State, in ssa.Instruction) {
 		k := keyTerm(x.get(st, i.Key))
 		v := x.get(st, i.Value)
 		x.safety(st, in, "nilmap", Neq(m.T, IntLit(0)))
+		x.guardCheck(st, in, mapKeyPrefix(m.Typ))
 		x.mapStore(st, m, k, v)
 	case *ssa.MakeMap:
 		ref := x.freshRef(st)
@@ -995,7 +1006,7 @@ func (x *Exec) unop(st *State, i *ssa.UnOp) {
 	v := x.get(st, i.X)
 	switch i.Op {
 	case token.MUL: // load
-		x.checkMoved(v)
+		x.guardCheck(st, i, v.Prefix)
 		pt := v.Typ.Underlying().(*types.Pointer)
 		if len(v.Idx) == 1 && v.Prefix == objPrefix(pt.Elem()) {
 			x.safety(st, i, "nil", Neq(v.Idx[0], IntLit(0)))
@@ -1082,6 +1093,7 @@ func (x *Exec) lookup(st *State, i *ssa.Lookup) {
 	if m.K != VMap {
 		unsupported("lookup on %v (string indexing)", i.X.Type())
 	}
+	x.guardCheck(st, i, mapKeyPrefix(m.Typ))
 	k := keyTerm(x.get(st, i.Index))
 	_, vt := mapTypes(m.Typ)
 	dom := mapDom(st.heap, m, k)
@@ -1268,6 +1280,7 @@ func (x *Exec) next(st *State, i *ssa.Next) {
 	it := itv.Iter
 	m := it.m
 	kt, vt := mapTypes(m.Typ)
+	x.guardCheck(st, i, mapKeyPrefix(m.Typ))
 	n := it.n
 	it.n++
 	if it.forced != nil || it.asc {
@@ -1599,4 +1612,24 @@ func mentionsBound(t *Term) bool {
 		return false
 	}
 	return rec(t)
+}
+
+type activeGuard struct {
+	fam      string // ghost family holding the held flag
+	idx      []*Term
+	prefixes []string
+	text     string
+}
+
+// guardCheck: an access to a family protected by a lock must happen while that lock is held.
+func (x *Exec) guardCheck(st *State, in ssa.Instruction, fam string) {
+	for _, g := range x.guards {
+		for _, p := range g.prefixes {
+			if strings.HasPrefix(fam, p) {
+				held := st.heap.Get(g.fam, len(g.idx), SBool).Select(g.idx)
+				x.safety(st, in, "lockset", held)
+				return
+			}
+		}
+	}
 }
